@@ -12,7 +12,7 @@ import itertools, random
 
 SCOPED = ['for', 'forelse', 'forrec', 'forrecne', 'forfilter', 'with', 'setblock', 'setblockf', 'filter', 'autoescape', 'if', 'ifelse']
 SCOPED_MACRO = ['macrocall', 'callblock']
-LEAVES_EXTRA = ['setblockself', 'looplookup']
+LEAVES_EXTRA = ['setblockself', 'looplookup', 'slice', 'nsset', 'callarg', 'testarg', 'ifexpr']
 LEAVES = ['text', 'emit', 'break', 'continue', 'set', 'ifbreak', 'ifcontinue', 'emitvar', 'setself', 'withself', 'recurse']
 
 
@@ -47,6 +47,16 @@ class Gen:
             return '{% with w = w %}{{ w }}{% endwith %}'
         if kind == 'setblockself':
             return '{% set z %}[{{ z }}]{% endset %}{{ z }}'
+        if kind == 'slice':
+            return '{{ sl[i1:i2:i3] }}'
+        if kind == 'nsset':
+            return '{% set nsx.attr = a %}'
+        if kind == 'callarg':
+            return '{{ fn1(ca1, k=ca2) }}{{ ob1.meth(ca3) }}'
+        if kind == 'testarg':
+            return '{{ a is divisibleby(ta1) }}{{ a|default(da1) }}'
+        if kind == 'ifexpr':
+            return '{{ ie1 if ie2 else ie3 }}{{ [li1, (tu1, tu2), {"k": ma1}] }}'
         if kind == 'looplookup':
             return '{{ loop.index }}'
         if kind == 'recurse':
@@ -67,6 +77,15 @@ class Gen:
         if kind == 'forrecne':
             v = self.fresh('x')
             return '{%% for %s in %s recursive %%}%s{{ loop(%s.c) }}{%% endfor %%}%s' % (v, self.fresh('l'), body(v), v, s)
+        if kind == 'forfilterloop':
+            v = self.fresh('x')
+            return '{%% for %s in %s if loop %%}%s{%% endfor %%}%s' % (v, self.fresh('l'), body(v), s)
+        if kind == 'forloopiter':
+            v = self.fresh('x')
+            return '{%% for %s in loop %%}%s{%% endfor %%}%s' % (v, body(v), s)
+        if kind == 'forunpack':
+            v = self.fresh('x')
+            return '{%% for (%s, %s_b) in %s %%}%s{{ %s_b }}{%% endfor %%}%s' % (v, v, self.fresh('l'), body(v), v, s)
         if kind == 'forfilter':
             v = self.fresh('x')
             return '{%% for %s in %s if %s %%}%s{%% endfor %%}%s' % (v, self.fresh('l'), v, body(v), s)
